@@ -16,6 +16,7 @@ from eos.eve_obj.modifier import DogmaModifier
 from eos.item.charge import Autocharge
 from eos.item_container import SlotTakenError
 from eos.item.exception import NoSuchAbilityError, NoSuchSideEffectError
+from eos.source.exception import UnknownSourceError
 from eos.eve_obj.type import AbilityData
 import eos.item.booster as booster_mod
 import math
@@ -31,7 +32,8 @@ CLASSES = {
 }
 SLOT_ATTR = {'ship': 'ship', 'character': 'character', 'stance': 'stance', 'beacon': 'effect_beacon'}
 
-DOCUMENTED = (TypeError, ValueError, KeyError, IndexError, SlotTakenError, NoSuchAbilityError, NoSuchSideEffectError)
+DOCUMENTED = (TypeError, ValueError, KeyError, IndexError, SlotTakenError, NoSuchAbilityError, NoSuchSideEffectError,
+              UnknownSourceError)
 
 ORIG_PENALTY_BASE = cmap.PENALTY_BASE
 
@@ -45,6 +47,7 @@ ALLOWED = {
     'rfree': ('ValueError', 'IndexError'),
     'fladd': ('ValueError',), 'flrm': ('KeyError',), 'ssadd': ('ValueError',), 'ssrm': ('KeyError',),
     'read': ('KeyError',), 'setside': ('NoSuchSideEffectError',), 'setability': ('NoSuchAbilityError',),
+    'source': ('UnknownSourceError',),
 }
 
 
@@ -286,6 +289,9 @@ class Impl:
             self.sss[int(t[1])].fits.clear()
             return 'ok'
         if c == 'source':
+            if t[2].startswith('?'):
+                self.sss[int(t[1])].source = 'alias-nobody-registered-' + t[2][1:]
+                return 'ok'
             self.sss[int(t[1])].source = self.sources[int(t[2])] if t[2] != '-' else None
             return 'ok'
         if c == 'read':
